@@ -441,7 +441,9 @@ func (t *GRPCTap) Stream(srv any, ss grpc.ServerStream, info *grpc.StreamServerI
 	if os.Getenv("VERIF_DEBUG_TAP") != "" {
 		t0 := time.Now()
 		fmt.Fprintf(os.Stderr, "TAP %s start %s\n", t0.Format("15:04:05.000"), info.FullMethod)
-		defer func() { fmt.Fprintf(os.Stderr, "TAP %s end   %s (started %s)\n", time.Now().Format("15:04:05.000"), info.FullMethod, t0.Format("15:04:05.000")) }()
+		defer func() {
+			fmt.Fprintf(os.Stderr, "TAP %s end   %s (started %s)\n", time.Now().Format("15:04:05.000"), info.FullMethod, t0.Format("15:04:05.000"))
+		}()
 	}
 	defer func() { t.mu.Lock(); t.Active--; t.mu.Unlock() }()
 	f := t.take(info.FullMethod)
